@@ -42,6 +42,9 @@ func Y(label int32) {
 	s := S
 	s.ticks++
 	s.lhash = (s.lhash ^ uint64(uint32(label))) * 1099511628211
+	if TraceOn {
+		Trace = append(Trace, label)
+	}
 	s.countdown--
 	if s.countdown > 0 {
 		return
@@ -49,9 +52,17 @@ func Y(label int32) {
 	s.preempt(label)
 }
 
+// TraceOn makes every hook call append its label to Trace (debugging aid for
+// the determinism self-test: diff two traces to find the first divergence).
+var TraceOn bool
+var Trace []int32
+
 func tick(s *Sched, label int32) {
 	s.ticks++
 	s.lhash = (s.lhash ^ uint64(uint32(label))) * 1099511628211
+	if TraceOn {
+		Trace = append(Trace, label)
+	}
 	s.countdown--
 }
 
